@@ -57,6 +57,16 @@ Theorem C07_prufer_decode_encode : forall c, valid_code c ->
 Proof. exact prufer_decode_encode. Qed.
 Print Assumptions C07_prufer_decode_encode.
 
+(* The same over Go ints: for every []int cz whose elements lie in [0, len(cz)+2), PruferDecode
+   returns the DenseGraph of a simple graph on len(cz)+2 vertices that is a tree (by leaf
+   elimination, and connected with n-1 edges), and PruferEncode of it returns cz. *)
+Theorem C07_prufer_decode_encode_ints : forall cz : list Z,
+  (forall x, In x cz -> (0 <= x < Z.of_nat (length cz) + 2)%Z) ->
+  exists g, prufer_decode cz = Ok (dense_of g) /\ gn g = length cz + 2 /\ simple g /\
+            is_tree g /\ connected_tree g /\ prufer_encode g = Ok cz.
+Proof. exact prufer_decode_encode_Z. Qed.
+Print Assumptions C07_prufer_decode_encode_ints.
+
 (* The converse: for every labelled tree g on n >= 2 vertices PruferEncode does not panic, its
    result is a code in {0..n-1}^(n-2), and PruferDecode of it is the DenseGraph equal to g. *)
 Theorem C07_prufer_encode_decode : forall g, simple g -> gn g >= 2 -> is_tree g ->
